@@ -19,6 +19,11 @@ macro_rules! beh_job {
         type B = BehaviorSubject<V, $subj>;
         let mut h: Vec<B> = vec![B::new(V::I(INIT))];
         h.push(h[0].clone());
+        // what peek() answered inside callbacks: (item being delivered, peek())
+        let peeks: std::rc::Rc<std::cell::RefCell<Vec<(V, V)>>> = Default::default();
+        // probes subscribed from inside a callback, with the item in flight
+        let nested: std::rc::Rc<std::cell::RefCell<Vec<(Probe, V)>>> = Default::default();
+        let mut nested_seen = 0usize;
         let mut probes: Vec<Probe> = vec![];
         let mut subs: Vec<Option<<B as Observable<V, E, Probe>>::Unsub>> = vec![];
         // model
@@ -32,6 +37,8 @@ macro_rules! beh_job {
           if probes.len() < MAX_SUBS {
             menu.push(("subscribe@h0", 0));
             menu.push(("subscribe@h1", 1));
+            menu.push(("subscribe-peeking", 0));
+            menu.push(("subscribe-nesting", 0));
           }
           for k in 0..subs.len() {
             if subs[k].is_some() {
@@ -63,6 +70,35 @@ macro_rules! beh_job {
             }
           };
           match act {
+            "subscribe-peeking" | "subscribe-nesting" => {
+              let hb = h[0].clone();
+              let p = if act == "subscribe-peeking" {
+                let pk = peeks.clone();
+                Probe::with_hook(move |v| pk.borrow_mut().push((v.clone(), hb.peek())))
+              } else {
+                let ns = nested.clone();
+                let mut armed = true;
+                // the very first delivery is the current value handed over during
+                // subscribe(); nest on the first *broadcast* item
+                let mut first = true;
+                Probe::with_hook(move |v| {
+                  if first {
+                    first = false;
+                    return;
+                  }
+                  if armed {
+                    armed = false;
+                    let np = Probe::new();
+                    ns.borrow_mut().push((np.clone(), v.clone()));
+                    let _ = hb.clone().actual_subscribe(np);
+                  }
+                })
+              };
+              probes.push(p.clone());
+              subs.push(Some(h[0].clone().actual_subscribe(p)));
+              live.push(open);
+              expect.push(vec![Note::N(value.clone())]);
+            }
             "subscribe@h0" | "subscribe@h1" => {
               let p = Probe::new();
               probes.push(p.clone());
@@ -130,6 +166,41 @@ macro_rules! beh_job {
               );
             }
           }
+          for (item, pk) in peeks.borrow().iter() {
+            if item != pk {
+              obs.fail(
+                format!("c12:{}:peek-inside-callback", $label),
+                format!("after [{}]: while {item:?} was being delivered peek() answered {pk:?}", hist.join(" ")),
+              );
+            }
+          }
+          {
+            // a subscriber that joined from inside the delivery of item x gets x as
+            // its current value, then exactly the later items
+            let ns = nested.borrow();
+            while nested_seen < ns.len() {
+              // it joins the model as a live subscriber from now on
+              probes.push(ns[nested_seen].0.clone());
+              subs.push(None);
+              live.push(open);
+              expect.push(vec![Note::N(ns[nested_seen].1.clone())]);
+              nested_seen += 1;
+            }
+          }
+          for (k, p) in probes.iter().enumerate() {
+            let got = p.notes();
+            if got != expect[k] && subs[k].is_none() && k >= expect.len() - nested_seen.min(expect.len()) {
+              obs.fail(
+                format!("c12:{}:joined-inside-callback", $label),
+                format!(
+                  "after [{}]: subscriber {k} (joined inside a callback) expected [{}] got [{}]",
+                  hist.join(" "),
+                  fmt_notes(&expect[k]),
+                  fmt_notes(&got)
+                ),
+              );
+            }
+          }
           for (i, hh) in h.iter().enumerate() {
             let pk = hh.peek();
             if pk != value {
@@ -159,6 +230,8 @@ macro_rules! beh_job {
             .join("; ")
         });
       })
+      .panics_violate()
+      .sig(format!("BehaviorSubject<{}>", $label))
     }
   };
 }
@@ -168,12 +241,12 @@ beh_job!(job_threads, SubjectThreads<V, E>, "SubjectThreads");
 
 pub fn plan(tier: Tier) -> Plan {
   let len = match tier {
-    Tier::Quick => 5,
+    Tier::Quick => 6,
     Tier::Thorough => 7,
   };
   let mut jobs = vec![];
-  // first menu: 2 subscribe entries + 8 others
-  for first in 0..10 {
+  // first menu: 4 subscribe entries + 8 others
+  for first in 0..12 {
     jobs.push(job_local(len).root(vec![first]));
     jobs.push(job_threads(len).root(vec![first]));
   }
